@@ -275,6 +275,8 @@ def run(run):
         d, fc, sub = k
         for i in range(per_kind):
             m = gen.message(r, d, fc, sub, beyond=(i % 4 == 0))
+            if 'bits' in m and i % 5 == 2:
+                m['bits'] = gen.truthy(r, m['bits'])          # ON / OFF given as integers (0xFF00, 1, 2 ... / 0), as applications do
             if d == RSP and fc == 43 and i % 2:
                 m['conformity'] = r.choice([1, 2, 3, 0x81, 0x82, 0x83])
                 m['more'] = r.choice([0, 0xFF])
